@@ -179,8 +179,8 @@ impl Local {
 // ------------------------------------------------------------------------------------------------
 
 pub struct Known {
-    /// (property, key) -> what
-    pub known: BTreeMap<(String, String), String>,
+    /// (property, key) -> (what, clauses that are known to fail on this input; empty = any clause)
+    pub known: BTreeMap<(String, String), (String, Vec<String>)>,
     pub fixed: Vec<Value>,
 }
 
@@ -210,7 +210,10 @@ pub fn load_known() -> Known {
                             v["property"].as_str().unwrap_or("").into(),
                             v["key"].as_str().unwrap_or("").into(),
                         ),
-                        v["what"].as_str().unwrap_or("").into(),
+                        (
+                            v["what"].as_str().unwrap_or("").into(),
+                            v["clauses"].as_array().map(|a| a.iter().filter_map(|c| c.as_str().map(|s| s.to_string())).collect()).unwrap_or_default(),
+                        ),
                     );
                 }
                 _ => k.fixed.push(v),
@@ -249,11 +252,14 @@ pub fn finish(
     let mut known_hit: BTreeMap<String, (String, u64)> = BTreeMap::new();
     let mut unlisted: Vec<&Violation> = vec![];
     for v in viol.iter() {
-        if let Some(what) = known.known.get(&(st.prop.clone(), v.key.clone())) {
-            let e = known_hit.entry(v.key.clone()).or_insert((what.clone(), 0));
-            e.1 += 1;
-        } else {
-            unlisted.push(v);
+        // a listed input suppresses exactly the clauses recorded for it: a different failure of the same
+        // property on the same input is still reported
+        match known.known.get(&(st.prop.clone(), v.key.clone())) {
+            Some((what, clauses)) if clauses.is_empty() || clauses.iter().any(|c| c == &v.clause) => {
+                let e = known_hit.entry(v.key.clone()).or_insert((what.clone(), 0));
+                e.1 += 1;
+            }
+            _ => unlisted.push(v),
         }
     }
     for (k, (what, _)) in &known_hit {
